@@ -22,6 +22,8 @@ ASSUMPTIONS = [
     "2.x: create_track is modelled as allocation of the next AUTOINCREMENT track id (the tie creates tracks from a minimal "
     "valid snapshot); databaseUuid of every PlaylistEntity row is the library's own and membershipReference is 0 (checked on "
     "the raw dump)",
+    "2.x: histories = the crate / track API interleaved with table-level additions of entries of OTHER databases (uuid != 0); "
+    "table-level removals and own-uuid entries for lists / tracks that do not exist are outside C08",
 ]
 MANIFEST_TEXT = ("Schema 2.x: Lean theorems (Properties/C08V2.lean): for every history of the crate / track API the Spec.Members "
                  "judge never objects and tracks exactly the abstraction of the PlaylistEntity table (contents = added and not "
